@@ -627,8 +627,31 @@ def check_buffer_discipline(run):
                         for v in n.get("vars", []):
                             if "n" in v and ("l:%s#%s" % (v["n"], v["id"]),) == p and v.get("init") is not None:
                                 srcs.add(callee_qn(unwrap(v["init"])) or show(v["init"]))
-                ok = srcs == {"CDNS::CdnsEncoder::write_int"}
+                # resolve locals that merely hand a count on (a helper's result variable after it was expanded in place)
+                def resolve(srcset, depth=0):
+                    out_ = set()
+                    for s_ in srcset:
+                        if s_.startswith("l:") and depth < 3:
+                            inner = set()
+                            for n2 in ir.walk(f["body"]):
+                                if n2.get("k") == "Bin" and n2.get("op") == "=" and path(n2["lhs"]) == (s_,):
+                                    inner.add(callee_qn(unwrap(n2["rhs"])) or show(n2["rhs"]))
+                                if n2.get("k") == "Decl":
+                                    for v2 in n2.get("vars", []):
+                                        if "n" in v2 and "l:%s#%s" % (v2["n"], v2["id"]) == s_ and v2.get("init") is not None:
+                                            inner.add(callee_qn(unwrap(v2["init"])) or show(v2["init"]))
+                            out_ |= resolve(inner, depth + 1) if inner else {s_}
+                        else:
+                            out_.add(s_)
+                    return out_
+                srcs = resolve(srcs)
+                core = srcs - {"0"}
+                ok = core == {"CDNS::CdnsEncoder::write_int"}
                 why = "advances by the count write_int returned" if ok else "advances by %s whose sources are %s" % (show(a), sorted(srcs))
+                if not ok and any(x.startswith("this.") for x in core) and "CDNS::CdnsEncoder::write_int" in core:
+                    # a count that may also come out of the encoder's own state (a remembered head): not decided here
+                    ok = None
+                    why = "the count %s may come from encoder state (%s) as well as from write_int: not decided" % (show(a), sorted(x for x in core if x.startswith("this.")))
             elif cv is not None:
                 nst = len([n for n in ir.walk(f["body"]) if n.get("k") == "Bin" and store_through_mp(n)])
                 ok = cv == nst
@@ -989,7 +1012,8 @@ def check_always_emits(run, rule):
         env = Env(f["body"])
         order = {id(x): i for i, x in enumerate(ir.walk(f["body"]))}
         emits = [order[id(x)] for x in ir.walk(f["body"]) if (x.get("k") == "Bin" and store_through_mp(x)) or
-                 (x.get("k") in ("MCall", "Call") and (x.get("callee") or {}).get("cls") == ENC and (callee_name(x) or "").startswith("write"))]
+                 (x.get("k") in ("MCall", "Call") and (x.get("callee") or {}).get("cls") == ENC and (callee_name(x) or "").startswith("write")) or
+                 (x.get("k") == "Call" and callee_name(x) == "memcpy" and x.get("args") and is_member(ir.unwrap_all_casts(x["args"][0]), "m_p"))]
         gs = list(ir.guarded_statements(f["body"], env))
         guard_at = {}
         for st, g, loops in gs:
